@@ -43,6 +43,12 @@ class P(Prop):
                                 inp["comps"][i]["status"] = [False] * n
                             elif plant["mech"][i]["cls"] == "ptipto":
                                 inp["comps"][i]["full"] = [True] * n
+            if rng.random() < 0.2:        # whole-kW loads given as integer arrays on their input side
+                for d, ci in zip(plant["mech"], inp["comps"]):
+                    if d["cls"] in ("propeller", "mech_load"):
+                        ci["out"] = [Fraction(int(x)) for x in ci["out"]]
+                        ci["set"] = "by_input"
+                inp["int_loads"] = True
             case = {"plant": plant, "inp": inp}
             # a second balance on the same object after ONLY the operating mode changed (engine statuses, full-PTI
             # flags); loads and PTI/PTO set-points stay as they are
@@ -184,6 +190,8 @@ class P(Prop):
             t.append("cls:" + d["cls"])
         if case.get("inp2"):
             t.append("second-balance-after-mode-change-only")
+        if inp.get("int_loads"):
+            t.append("loads-as-integer-arrays")
         return sorted(set(t))
 
     def search(self, rng, near=None):
